@@ -301,24 +301,28 @@ def shortType (go : String) : String :=
   let s := go.toList.takeWhile (· != '[')
   String.ofList (afterLastDot s s)
 
-/-- the first reason a constructor expression is rejected (inner expressions first) -/
+/-- the first reason a constructor expression is rejected, in the order the compiler reports (by position): a call that
+    cannot be typed whatever its argument (`gozod.Slice(e)`: T not inferable, `gozod.Record(e)`: an argument short) first,
+    then the argument expression, then what is wrong between the two -/
 def ctorWhy (T : MethodTable) (ti : Bool) : CExpr → Option String
   | .slice ptr targ e =>
-    match ctorWhy T ti e with
-    | some w => some w
-    | none =>
-      if (ctorType T ti (.slice ptr targ e)).isSome then none
-      else match targ with
-        | none => some "slice-cannot-infer-T"
-        | some t => if !targOK ti t then some "time-not-imported" else some "slice-arguments"
+    match targ with
+    | none => if (callPlain T (if ptr then "SlicePtr" else "Slice") 1).isSome then ctorWhy T ti e else some "slice-cannot-infer-T"
+    | some t =>
+      match ctorWhy T ti e with
+      | some w => some w
+      | none =>
+        if (ctorType T ti (.slice ptr targ e)).isSome then none
+        else if !targOK ti t then some "time-not-imported" else some "slice-arguments"
   | .record ptr targ e =>
-    match ctorWhy T ti e with
-    | some w => some w
-    | none =>
-      if (ctorType T ti (.record ptr targ e)).isSome then none
-      else match targ with
-        | none => some "record-arguments"
-        | some v => if !targOK ti v then some "time-not-imported" else some "record-value-type"
+    match targ with
+    | none => if (callPlain T (if ptr then "RecordPtr" else "Record") 1).isSome then ctorWhy T ti e else some "record-arguments"
+    | some v =>
+      match ctorWhy T ti e with
+      | some w => some w
+      | none =>
+        if (ctorType T ti (.record ptr targ e)).isSome then none
+        else if !targOK ti v then some "time-not-imported" else some "record-value-type"
   | .lazyStruct n => if (ctorType T ti (.lazyStruct n)).isSome then none else some "lazy-self-reference"
   | .fromStruct t => if (ctorType T ti (.fromStruct t)).isSome then none else if !targOK ti t then some "time-not-imported" else some "no-constructor"
   | .fromStructPtr t => if (ctorType T ti (.fromStructPtr t)).isSome then none else if !targOK ti t then some "time-not-imported" else some "no-constructor"
